@@ -19,6 +19,7 @@ import (
 // zkCase is one accepted (honest) verification: the verify op with its argument strings, and which
 // arguments are the session, the statement and the proof.
 type zkCase struct {
+	aux     []int // statement arguments that are the verifier\'s own setup
 	sys     string
 	op      string
 	args    []string
@@ -223,11 +224,11 @@ func facCase(r *Run, rng *rand.Rand, tag string, prover, verifier *keygen.LocalP
 }
 
 // --- Alice's range proof ---
-func rangeCase(r *Run, rng *rand.Rand, alice, bob *keygen.LocalPartySaveData, m *big.Int, modelProver bool) *zkCase {
-	c := curveByTag("s256")
+func rangeCase(r *Run, rng *rand.Rand, tag string, alice, bob *keygen.LocalPartySaveData, m *big.Int, modelProver bool) *zkCase {
+	c := curveByTag(tag)
 	q := c.Params().N
 	pk := &alice.PaillierSK.PublicKey
-	zc := &zkCase{sys: "range", op: "range_verify", sess: -1, stmt: []int{1, 2, 3, 4, 5}, proof: []int{6}, parts: mta.RangeProofAliceBytesParts, witness: eInt(m)}
+	zc := &zkCase{sys: "range", op: "range_verify", sess: -1, stmt: []int{1, 2, 3, 4, 5}, aux: []int{2, 3, 4}, proof: []int{6}, parts: mta.RangeProofAliceBytesParts, witness: eInt(m)}
 	zc.wire = func(a []string) []*big.Int { return dInts(a[6]) }
 	if modelProver {
 		x := unitBelow(rng, pk.N)
@@ -237,13 +238,13 @@ func rangeCase(r *Run, rng *rand.Rand, alice, bob *keygen.LocalPartySaveData, m 
 		}
 		q3 := new(big.Int).Mul(q, new(big.Int).Mul(q, q))
 		coins := []*big.Int{below(rng, q3), unitBelow(rng, pk.N), below(rng, new(big.Int).Mul(q3, bob.NTildei)), below(rng, new(big.Int).Mul(q, bob.NTildei))}
-		res := r.model.Call("range_prove", "s256", eInt(pk.N), eInt(cA), eInt(bob.NTildei), eInt(bob.H1i), eInt(bob.H2i), eInt(m), eInt(x), eInts(coins))
+		res := r.model.Call("range_prove", tag, eInt(pk.N), eInt(cA), eInt(bob.NTildei), eInt(bob.H1i), eInt(bob.H2i), eInt(m), eInt(x), eInts(coins))
 		f := strings.Fields(res)
 		if len(f) != 2 || f[0] != "ok" {
 			r.Note("model range_prove: %.200s", res)
 			return nil
 		}
-		zc.args = []string{"s256", eInt(pk.N), eInt(bob.NTildei), eInt(bob.H1i), eInt(bob.H2i), eInt(cA), f[1]}
+		zc.args = []string{tag, eInt(pk.N), eInt(bob.NTildei), eInt(bob.H1i), eInt(bob.H2i), eInt(cA), f[1]}
 		zc.origin = "model-prover"
 		return zc
 	}
@@ -251,7 +252,7 @@ func rangeCase(r *Run, rng *rand.Rand, alice, bob *keygen.LocalPartySaveData, m 
 	if err != nil {
 		return nil
 	}
-	zc.args = []string{"s256", eInt(pk.N), eInt(bob.NTildei), eInt(bob.H1i), eInt(bob.H2i), eInt(cA), eInts(rangeToInts(pf))}
+	zc.args = []string{tag, eInt(pk.N), eInt(bob.NTildei), eInt(bob.H1i), eInt(bob.H2i), eInt(cA), eInts(rangeToInts(pf))}
 	zc.origin = "go-prover"
 	return zc
 }
@@ -263,8 +264,8 @@ func padTo(v *big.Int, bits int) []byte {
 }
 
 // --- Bob's proofs ---
-func bobCase(r *Run, rng *rand.Rand, alice, bob *keygen.LocalPartySaveData, sess []byte, a, b *big.Int, wc bool, modelProver bool) *zkCase {
-	c := curveByTag("s256")
+func bobCase(r *Run, rng *rand.Rand, tag string, alice, bob *keygen.LocalPartySaveData, sess []byte, a, b *big.Int, wc bool, modelProver bool) *zkCase {
+	c := curveByTag(tag)
 	q := c.Params().N
 	pk := &alice.PaillierSK.PublicKey
 	cA, rpf, err := mta.AliceInit(c, pk, a, bob.NTildei, bob.H1i, bob.H2i, rdr(rng))
@@ -275,7 +276,7 @@ func bobCase(r *Run, rng *rand.Rand, alice, bob *keygen.LocalPartySaveData, sess
 	if wc {
 		name = "bobwc"
 	}
-	zc := &zkCase{sys: name, op: "bob_verify", sess: 1, stmt: []int{2, 3, 4, 5, 6, 7}, proof: []int{8}, parts: mta.ProofBobBytesParts, witness: eInt(b)}
+	zc := &zkCase{sys: name, op: "bob_verify", sess: 1, stmt: []int{2, 3, 4, 5, 6, 7}, aux: []int{3, 4, 5}, proof: []int{8}, parts: mta.ProofBobBytesParts, witness: eInt(b)}
 	zc.wire = func(a []string) []*big.Int { return dInts(a[8]) }
 	var B *crypto.ECPoint
 	if wc {
@@ -308,13 +309,13 @@ func bobCase(r *Run, rng *rand.Rand, alice, bob *keygen.LocalPartySaveData, sess
 		if wc {
 			Xs = ePoint(B)
 		}
-		res := r.model.Call("bob_prove", "s256", eBytes(sess), eInt(pk.N), eInt(alice.NTildei), eInt(alice.H1i), eInt(alice.H2i), eInt(cA), eInt(cB), eInt(b), eInt(betaPrm), eInt(x), Xs, eInts(coins))
+		res := r.model.Call("bob_prove", tag, eBytes(sess), eInt(pk.N), eInt(alice.NTildei), eInt(alice.H1i), eInt(alice.H2i), eInt(cA), eInt(cB), eInt(b), eInt(betaPrm), eInt(x), Xs, eInts(coins))
 		f := strings.Fields(res)
 		if len(f) != 3 || f[0] != "ok" {
 			r.Note("model bob_prove: %.200s", res)
 			return nil
 		}
-		zc.args = []string{"s256", eBytes(sess), eInt(pk.N), eInt(alice.NTildei), eInt(alice.H1i), eInt(alice.H2i), eInt(cA), eInt(cB), f[1], Xs, f[2]}
+		zc.args = []string{tag, eBytes(sess), eInt(pk.N), eInt(alice.NTildei), eInt(alice.H1i), eInt(alice.H2i), eInt(cA), eInt(cB), f[1], Xs, f[2]}
 		zc.origin = "model-prover"
 		return zc
 	}
@@ -324,14 +325,14 @@ func bobCase(r *Run, rng *rand.Rand, alice, bob *keygen.LocalPartySaveData, sess
 			r.Note("BobMidWC: %v", err)
 			return nil
 		}
-		zc.args = []string{"s256", eBytes(sess), eInt(pk.N), eInt(alice.NTildei), eInt(alice.H1i), eInt(alice.H2i), eInt(cA), eInt(cB), eInts(bobToInts(pf.ProofBob)), ePoint(B), ePoint(pf.U)}
+		zc.args = []string{tag, eBytes(sess), eInt(pk.N), eInt(alice.NTildei), eInt(alice.H1i), eInt(alice.H2i), eInt(cA), eInt(cB), eInts(bobToInts(pf.ProofBob)), ePoint(B), ePoint(pf.U)}
 	} else {
 		_, cB, _, pf, err := mta.BobMid(sess, c, pk, rpf, b, cA, alice.NTildei, alice.H1i, alice.H2i, bob.NTildei, bob.H1i, bob.H2i, rdr(rng))
 		if err != nil {
 			r.Note("BobMid: %v", err)
 			return nil
 		}
-		zc.args = []string{"s256", eBytes(sess), eInt(pk.N), eInt(alice.NTildei), eInt(alice.H1i), eInt(alice.H2i), eInt(cA), eInt(cB), eInts(bobToInts(pf)), "nil", "nil"}
+		zc.args = []string{tag, eBytes(sess), eInt(pk.N), eInt(alice.NTildei), eInt(alice.H1i), eInt(alice.H2i), eInt(cA), eInt(cB), eInts(bobToInts(pf)), "nil", "nil"}
 	}
 	zc.origin = "go-prover"
 	return zc
@@ -381,16 +382,25 @@ func honestCases(r *Run, rng *rand.Rand, thorough bool) []*zkCase {
 			if i == j && !thorough {
 				continue
 			}
-			add(facCase(r, rng, "s256", F(i), F(j), ss[(i+j)%len(ss)], (i+j)%2 == 0))
-			q := curveByTag("s256").Params().N
-			ws := witnessGrid(rng, q)
-			for k, m := range ws {
-				if !thorough && k%2 == 1 {
-					continue
+			for ti, tag := range curveTags {
+				add(facCase(r, rng, tag, F(i), F(j), ss[(i+j)%len(ss)], (i+j+ti)%2 == 0))
+				q := curveByTag(tag).Params().N
+				ws := witnessGrid(rng, q)
+				for k, m := range ws {
+					if !thorough && k%2 == 1 {
+						continue
+					}
+					// the MtA proofs are used on secp256k1 by the protocols but are generic in the curve order
+					add(rangeCase(r, rng, tag, F(i), F(j), m, k%2 == 1))
+					if ti > 0 {
+						add(rangeCase(r, rng, tag, F(i), F(j), m, false))
+						if !thorough && k%4 != 0 {
+							continue
+						}
+					}
+					add(bobCase(r, rng, tag, F(i), F(j), ss[k%len(ss)], ws[(k+1)%len(ws)], m, false, k%4 == 2))
+					add(bobCase(r, rng, tag, F(i), F(j), ss[(k+1)%len(ss)], ws[(k+2)%len(ws)], m, true, k%4 == 0))
 				}
-				add(rangeCase(r, rng, F(i), F(j), m, k%2 == 1))
-				add(bobCase(r, rng, F(i), F(j), ss[k%len(ss)], ws[(k+1)%len(ws)], m, false, k%4 == 2))
-				add(bobCase(r, rng, F(i), F(j), ss[(k+1)%len(ss)], ws[(k+2)%len(ws)], m, true, k%4 == 0))
 			}
 		}
 	}
